@@ -64,7 +64,8 @@ Lemma o15_run_code e xs : forall s k,
 Proof.
   induction xs as [|x tl IH]; intros s k; cbn [o15_run]; [discriminate|].
   destruct (o15_step s x) as [s'|]; [apply IH|].
-  destruct (engine_eqb e EBadger && (os_base s <? dmax (os_dump s))) eqn:C; intros H; injection H as <-; [right|left; reflexivity].
+  unfold f1_signature. destruct (engine_eqb e EBadger && (os_base s <? N.max (dmax (os_dump s)) (os_sbase s))) eqn:C;
+    intros H; injection H as <-; [right|left; reflexivity].
   apply andb_true_iff in C as [C _]. split; [reflexivity|]. destruct e; simpl in C; try discriminate. reflexivity.
 Qed.
 
@@ -138,6 +139,7 @@ Proof.
   - apply andb_true_iff in E as [E1 E2]. apply N.eqb_eq in E1. apply (list_eqb_eq kv_eqb kv_eqb_eq) in E2. congruence.
   - apply res_eqb_true in E. congruence.
   - reflexivity.
+  - reflexivity.
 Qed.
 
 (* a request touches only its own key *)
@@ -165,122 +167,159 @@ Proof.
     destruct (r0 =? modr); [simpl; apply dget_dset_other; exact H|reflexivity].
 Qed.
 
-Lemma elect_data e w p h bc bu t1 t2 w' p' r g wr :
-  elect e w p h bc bu t1 t2 = (w', p', r, g, wr) -> w_data w' = w_data w.
-Proof.
-  unfold elect.
-  set (g0 := do_get (w_lock w) (p_lock p) GOk (TOk (clock e w t1))).
-  destruct (o_res g0).
-  - destruct (o_res (do_update _ _ h bu COk _)); try destruct (leader_version _);
-      intros H; injection H as <- _ _ _ _; cbn [w_data]; apply bump_data.
-  - destruct (o_res (do_create _ _ h bc COk _)); try destruct (leader_version _);
-      intros H; injection H as <- _ _ _ _; cbn [w_data]; apply bump_data.
-  - intros H; injection H as <- _ _ _ _; reflexivity.
-  - intros H; injection H as <- _ _ _ _; reflexivity.
-  - intros H; injection H as <- _ _ _ _; reflexivity.
-  - intros H; injection H as <- _ _ _ _; reflexivity.
-Qed.
-
-(* validity of a script: every elected process is fresh (a process is elected at most once), only
-   the current leader serves requests (the old leader has stopped), and for the environment clocks
-   the rate hypothesis holds at every hand-over *)
-Fixpoint v15 (e : engine) (s : mstate) (ldr : option cid) (xs : list (act * aobs)) : Prop :=
+(* validity of a script: a process is elected at most once and is only synced as a follower before
+   that (el = the processes elected so far), only the current leader serves requests (the old leader
+   has stopped), and for the environment clocks the rate hypothesis holds at every hand-over: the
+   clock reading is at or above every stored revision and every revision the node had synced to *)
+Fixpoint v15 (e : engine) (s : mstate) (ldr : option cid) (el : list cid) (xs : list (act * aobs)) : Prop :=
   match xs with
   | [] => True
   | (a, _) :: tl =>
       let s' := fst (m_step e s a) in
       match a with
-      | AElect c _ _ _ _ _ =>
-          p_lead (m_p s c) = mkL 0 0 /\      (* a fresh Backend: a process is elected at most once *)
+      | AElect c _ _ _ _ _ _ =>
+          ~ In c el /\
           match snd (m_step e s a) with
-          | OElect (EAcquired v) _ _ d _ => (e <> EBadger -> dmax d <= v) /\ v15 e s' (Some c) tl
-          | _ => False                     (* the scripts the driver writes only contain winning elections *)
+          | OElect (EAcquired v) _ _ d _ =>
+              (e <> EBadger -> dmax d <= v /\ deal (p_lead (m_p s c)) <= v) /\ v15 e s' (Some c) (c :: el) tl
+          | _ => v15 e s' ldr el tl
           end
-      | AOp c _ | AList c => ldr = Some c /\ v15 e s' ldr tl
-      | AGet _ _ | ARestart => v15 e s' ldr tl
+      | ASync c _ => ~ In c el /\ v15 e s' ldr el tl
+      | AOp c _ | AList c => ldr = Some c /\ v15 e s' ldr el tl
+      | AGet _ _ | ARestart => v15 e s' ldr el tl
       end
   end.
-Definition c15_valid (c : c15_case) : Prop := v15 (c_engine c) mstate0 None (c_script c).
+Definition c15_valid (c : c15_case) : Prop := v15 (c_engine c) mstate0 None [] (c_script c).
 
-Definition J (e : engine) (s : mstate) (os : ost15) : Prop :=
+Definition J (e : engine) (s : mstate) (os : ost15) (el : list cid) : Prop :=
   WF (w_data (m_w s)) /\
+  (forall c, ~ In c el -> deal (p_lead (m_p s c)) = os_syncs os c) /\
   match os_leader os with
   | None => True
-  | Some l => exists n, p_lead (m_p s l) = mkL n n /\
-      ((e = EBadger /\ os_base os < dmax (os_dump os)) \/
-       (dmax (os_dump os) <= os_base os /\ Good (w_data (m_w s)) n /\ os_base os <= n /\
+  | Some l => In l el /\ exists n cm, p_lead (m_p s l) = mkL n cm /\
+      ((e = EBadger /\ os_base os < N.max (dmax (os_dump os)) (os_sbase os)) \/
+       (N.max (dmax (os_dump os)) (os_sbase os) <= os_base os /\ cm = n /\
+        Good (w_data (m_w s)) n /\ os_base os <= n /\ os_last os <= n /\
         (forall k, existsb (beqb k) (os_touched os) = false -> dget (w_data (m_w s)) k = dget (os_dump os) k) /\
         (os_fresh os = true -> w_data (m_w s) = os_dump os /\ n = os_base os)))
   end.
 
-Lemma code_of_bad e os : e = EBadger -> os_base os < dmax (os_dump os) ->
-  (if engine_eqb e EBadger && (os_base os <? dmax (os_dump os)) then 1 else 0) = 1.
-Proof. intros -> H. apply N.ltb_lt in H. rewrite H. reflexivity. Qed.
+Lemma code_of_bad e os : e = EBadger -> os_base os < N.max (dmax (os_dump os)) (os_sbase os) ->
+  (if f1_signature e os then 1 else 0) = 1.
+Proof. intros -> H. unfold f1_signature. apply N.ltb_lt in H. rewrite H. reflexivity. Qed.
 
-(* a non-election step keeps the oracle's hand-over facts *)
+(* a request or a List keeps the oracle's hand-over facts *)
+Definition is_req (a : act) : Prop := match a with AOp _ _ | AList _ => True | _ => False end.
 Lemma step_keeps os a o os' :
-  (forall c h bc bu t1 t2, a <> AElect c h bc bu t1 t2) ->
-  o15_step os (a, o) = Some os' ->
-  os_leader os' = os_leader os /\ os_base os' = os_base os /\ os_dump os' = os_dump os.
+  is_req a -> o15_step os (a, o) = Some os' ->
+  os_leader os' = os_leader os /\ os_base os' = os_base os /\ os_dump os' = os_dump os /\
+  os_sbase os' = os_sbase os /\ os_syncs os' = os_syncs os.
 Proof.
-  intros Ne. destruct a as [c h bc bu t1 t2|c op|c|c t|]; [exfalso; eapply Ne; reflexivity| | | |]; cbn [o15_step].
-  - destruct o as [| r | | |]; try discriminate. destruct (os_leader os) as [l|] eqn:L; [|intros H; injection H as <-; auto].
+  destruct a as [c h bc bu t1 t2 tf|c r|c op|c|c t|]; cbn [is_req]; try contradiction; intros _; cbn [o15_step].
+  - destruct o as [| r | | | |]; try discriminate. destruct (os_leader os) as [l|] eqn:L; [|intros H; injection H as <-; auto].
     destruct (c =? l); [|intros H; injection H as <-; auto].
     match goal with |- (if ?b then _ else _) = _ -> _ => destruct b end; [|discriminate].
     intros H; injection H as <-. cbn. auto.
-  - destruct o as [| |hdr kvs| |]; try discriminate. destruct (os_leader os) as [l|] eqn:L; [|intros H; injection H as <-; auto].
-    destruct ((c =? l) && os_fresh os); [|intros H; injection H as <-; auto].
-    destruct (list_eqb kv_eqb kvs (list_latest (os_dump os))); [|discriminate]. intros H; injection H as <-; auto.
-  - destruct o; try discriminate. intros H; injection H as <-; auto.
-  - destruct o; try discriminate. intros H; injection H as <-; auto.
+  - destruct o as [| |hdr kvs| | |]; try discriminate. destruct (os_leader os) as [l|] eqn:L; [|intros H; injection H as <-; auto].
+    destruct (c =? l); [|intros H; injection H as <-; auto].
+    match goal with |- (if ?b then _ else _) = _ -> _ => destruct b end; [|discriminate].
+    intros H; injection H as <-; auto.
 Qed.
 
-Lemma o15_sound e xs : forall s os,
-  J e s os -> v15 e s (os_leader os) xs -> c15_run e s xs = true ->
+Lemma o15_sound e xs : forall s os el,
+  J e s os el -> v15 e s (os_leader os) el xs -> c15_run e s xs = true ->
   o15_run e os xs = None \/ o15_run e os xs = Some 1.
 Proof.
-  induction xs as [|[a o] tl IH]; intros s os Jn V C; [left; reflexivity|].
+  induction xs as [|[a o] tl IH]; intros s os el Jn V C; [left; reflexivity|].
   cbn [c15_run] in C. cbn [v15] in V. destruct (m_step e s a) as [s' o'] eqn:M. cbn [fst snd] in V.
   apply andb_true_iff in C as [Eo C]. apply aobs_eqb_eq in Eo. subst o.
-  destruct Jn as [W Jl].
-  destruct a as [c h bc bu t1 t2|c op|c|c t|].
-  - (* election: always a winning one in a valid script *)
-    cbn [m_step] in M. destruct (elect e (m_w s) (m_p s c) h bc bu t1 t2) as [[[[w' p'] r] g] wr] eqn:El.
-    injection M as <- <-. destruct V as [Fresh V].
-    pose proof (elect_data _ _ _ _ _ _ _ _ _ _ _ _ _ El) as Ed.
-    destruct r as [v| |]; try contradiction.
-    destruct V as [Rate V]. cbn [o15_run o15_step]. apply (IH (mkM w' (upd (m_p s) c p'))); [|exact V|exact C].
-    split; [cbn [m_w]; rewrite Ed; exact W|]. cbn [os_leader os_base os_dump os_touched os_fresh m_p m_w].
-    destruct (elect_version _ _ _ _ _ _ _ _ _ _ _ _ _ El) as [_ [_ Pl]].
-    exists v. split.
-    { unfold upd. rewrite N.eqb_refl. rewrite Pl, Fresh. unfold set_current; simpl. destruct v; reflexivity. }
-    destruct (N.le_gt_cases (dmax (w_data w')) v) as [Hle|Hgt].
-    + right. split; [exact Hle|]. split; [apply good_split; split; [rewrite Ed; exact W|exact Hle]|].
-      split; [lia|]. split; [reflexivity|]. intros _. auto.
-    + left. split; [|exact Hgt].
-      destruct e; try reflexivity; exfalso; assert (dmax (w_data w') <= v) by (apply Rate; discriminate); lia.
+  destruct Jn as [W [K Jl]].
+  destruct a as [c h bc bu t1 t2 tf|c r|c op|c|c t|].
+  - (* election *)
+    cbn [m_step] in M. destruct (elect_f e (m_w s) (m_p s c) h bc bu t1 t2 tf) as [[[[w' p'] r] g] wr] eqn:El.
+    injection M as <- <-. destruct V as [Nel V].
+    pose proof (elect_f_data _ _ _ _ _ _ _ _ _ _ _ _ _ _ El) as Ed.
+    assert (Lc : forall l, os_leader os = Some l -> In l el -> l <> c) by (intros l _ Hin ->; exact (Nel Hin)).
+    destruct r as [v| |].
+    + (* acquired *)
+      destruct V as [Rate V]. cbn [o15_run o15_step].
+      pose proof (elect_f_acquired _ _ _ _ _ _ _ _ _ _ _ _ _ _ El) as ->.
+      destruct (elect_version _ _ _ _ _ _ _ _ _ _ _ _ _ El) as [_ [_ Pl]].
+      eapply IH; cycle 1; [exact V|exact C|].
+      split; [cbn [m_w]; rewrite Ed; exact W|]. split.
+      { intros c0 Hn. cbn [m_p os_syncs]. assert (c0 <> c) by (intros ->; apply Hn; left; reflexivity).
+        unfold upd. apply N.eqb_neq in H. rewrite H. apply K. intros Hi. apply Hn. right. exact Hi. }
+      cbn [os_leader os_base os_dump os_touched os_fresh os_last os_sbase m_p m_w].
+      split; [left; reflexivity|].
+      exists (if deal (p_lead (m_p s c)) <? v then v else deal (p_lead (m_p s c))), v. split.
+      { unfold upd. rewrite N.eqb_refl. rewrite Pl. reflexivity. }
+      rewrite <- (K c Nel).
+      destruct (N.le_gt_cases (N.max (dmax (w_data w')) (deal (p_lead (m_p s c)))) v) as [Hle|Hgt].
+      * right. split; [exact Hle|].
+        assert (Hd : (deal (p_lead (m_p s c)) <? v) = true \/ deal (p_lead (m_p s c)) = v).
+        { destruct (N.eq_dec (deal (p_lead (m_p s c))) v); [right; assumption|left; apply N.ltb_lt; lia]. }
+        assert (En : (if deal (p_lead (m_p s c)) <? v then v else deal (p_lead (m_p s c))) = v).
+        { destruct Hd as [Hd|Hd]; [rewrite Hd; reflexivity|rewrite Hd, N.ltb_irrefl; reflexivity]. }
+        rewrite En. split; [reflexivity|]. split; [apply good_split; split; [rewrite Ed; exact W|lia]|].
+        split; [lia|]. split; [lia|]. split; [reflexivity|]. intros _. auto.
+      * left. split; [|exact Hgt].
+        destruct e; try reflexivity; exfalso;
+          assert (dmax (w_data w') <= v /\ deal (p_lead (m_p s c)) <= v) by (apply Rate; discriminate); lia.
+    + (* not acquired: nothing the oracle or the revision counters depend on changes *)
+      cbn [o15_run o15_step].
+      pose proof (elect_f_lead _ _ _ _ _ _ _ _ _ _ _ _ _ _ El ltac:(intros; discriminate)) as Pl.
+      eapply IH; cycle 1; [exact V|exact C|].
+      split; [cbn [m_w]; rewrite Ed; exact W|]. split.
+      { intros c0 Hn. cbn [m_p]. unfold upd. destruct (c0 =? c) eqn:E; [apply N.eqb_eq in E; subst c0; rewrite Pl|]; apply K; exact Hn. }
+      destruct (os_leader os) as [l|] eqn:L; [|exact I]. destruct Jl as [Hin [n [cm [Pn Jd]]]].
+      split; [exact Hin|]. exists n, cm. cbn [m_p m_w]. rewrite Ed. split; [|exact Jd].
+      unfold upd. assert (l <> c) by (apply (Lc l eq_refl Hin)). apply N.eqb_neq in H. rewrite H. exact Pn.
+    + cbn [o15_run o15_step].
+      pose proof (elect_f_lead _ _ _ _ _ _ _ _ _ _ _ _ _ _ El ltac:(intros; discriminate)) as Pl.
+      eapply IH; cycle 1; [exact V|exact C|].
+      split; [cbn [m_w]; rewrite Ed; exact W|]. split.
+      { intros c0 Hn. cbn [m_p]. unfold upd. destruct (c0 =? c) eqn:E; [apply N.eqb_eq in E; subst c0; rewrite Pl|]; apply K; exact Hn. }
+      destruct (os_leader os) as [l|] eqn:L; [|exact I]. destruct Jl as [Hin [n [cm [Pn Jd]]]].
+      split; [exact Hin|]. exists n, cm. cbn [m_p m_w]. rewrite Ed. split; [|exact Jd].
+      unfold upd. assert (l <> c) by (apply (Lc l eq_refl Hin)). apply N.eqb_neq in H. rewrite H. exact Pn.
+  - (* a follower is synced *)
+    cbn [m_step] in M. injection M as <- <-. destruct V as [Nel V]. cbn [o15_run o15_step].
+    eapply IH; cycle 1; [exact V|exact C|].
+    split; [exact W|]. split.
+    { intros c0 Hn. cbn [m_p os_syncs]. unfold upd. destruct (c0 =? c) eqn:E.
+      - apply N.eqb_eq in E. subst c0. cbn [p_lead]. unfold set_current; cbn [deal]. rewrite (K c Hn).
+        destruct (os_syncs os c <? r) eqn:L; [apply N.ltb_lt in L|apply N.ltb_ge in L]; lia.
+      - apply K. exact Hn. }
+    cbn [os_leader os_base os_dump os_touched os_fresh os_last os_sbase m_w m_p].
+    destruct (os_leader os) as [l|] eqn:L; [|exact I]. destruct Jl as [Hin [n [cm [Pn Jd]]]].
+    split; [exact Hin|]. exists n, cm. split; [|exact Jd].
+    unfold upd. assert (l <> c) by (intros ->; exact (Nel Hin)). apply N.eqb_neq in H. rewrite H. exact Pn.
   - (* a request served by the leader *)
-    destruct V as [Ld V]. rewrite Ld in Jl. destruct Jl as [n [Pn Jd]].
-    cbn [m_step] in M. unfold serve in M. rewrite Pn in M. cbn [deal] in M.
+    destruct V as [Ld V]. rewrite Ld in Jl. destruct Jl as [Hin [n [cm [Pn Jd]]]].
+    cbn [m_step] in M. unfold serve in M. rewrite Pn in M. cbn [deal committed] in M.
     set (out := do_op (w_data (m_w s)) n op) in *. injection M as <- <-.
     assert (W' : WF (w_data (bump (mkW (w_lock (m_w s)) (d_store out) (w_commits (m_w s))) (d_commit out)))).
     { rewrite bump_data. cbn [w_data]. apply do_op_wf. exact W. }
-    assert (P' : p_lead (upd (m_p s) c (mkP (p_lock (m_p s c)) (mkL (n + 1) (n + 1))) c) = mkL (n + 1) (n + 1)).
+    assert (K' : forall q c0, ~ In c0 el -> deal (p_lead (upd (m_p s) c q c0)) = os_syncs os c0).
+    { intros q c0 Hn. unfold upd. assert (c0 <> c) by (intros ->; exact (Hn Hin)). apply N.eqb_neq in H. rewrite H. apply K. exact Hn. }
+    assert (P' : p_lead (upd (m_p s) c (mkP (p_lock (m_p s c)) (mkL (n + 1) (if n =? cm then n + 1 else cm))) c)
+                 = mkL (n + 1) (if n =? cm then n + 1 else cm)).
     { unfold upd. rewrite N.eqb_refl. reflexivity. }
-    destruct Jd as [[Eb Hb]|[Hle [G [Hbn [Hun Hfr]]]]].
-    + (* hand-over went wrong: whatever the oracle says is classified as the finding *)
-      cbn [o15_run]. destruct (o15_step os (AOp c op, OOp (d_res out))) as [os'|] eqn:St.
-      * assert (Ne : forall c0 h bc bu t1 t2, AOp c op <> AElect c0 h bc bu t1 t2) by (intros; discriminate).
-        destruct (step_keeps _ _ _ _ Ne St) as [K1 [K2 K3]].
-        refine (IH _ os' _ _ C); [|rewrite K1; exact V].
-        split; [exact W'|]. rewrite K1, Ld. exists (n + 1). split; [exact P'|]. left. rewrite K2, K3. auto.
+    destruct Jd as [[Eb Hb]|[Hle [Ecm [G [Hbn [Hla [Hun Hfr]]]]]]].
+    + cbn [o15_run]. destruct (o15_step os (AOp c op, OOp (d_res out))) as [os'|] eqn:St.
+      * destruct (step_keeps os (AOp c op) _ os' I St) as [K1 [K2 [K3 [K4 K5]]]].
+        eapply IH; cycle 1; [rewrite K1; exact V|exact C|].
+        split; [exact W'|]. split; [rewrite K5; apply K'|]. rewrite K1, Ld. split; [exact Hin|].
+        eexists _, _. split; [exact P'|]. left. rewrite K2, K3, K4. auto.
       * right. f_equal. apply code_of_bad; assumption.
-    + (* hand-over was ahead: the oracle accepts the response *)
-      cbn [o15_run o15_step]. rewrite Ld, N.eqb_refl.
-      assert (Ha : (match h_class (d_res out) with HOk | HNotFound => dmax (os_dump os) <? h_rev (d_res out) | _ => true end) = true).
-      { destruct (h_class (d_res out)) eqn:Hc; try reflexivity.
-        - destruct (handed_out_above _ _ op G (or_introl Hc)) as [E _]. fold out in E. rewrite E. apply N.ltb_lt. lia.
-        - destruct (handed_out_above _ _ op G (or_intror Hc)) as [E _]. fold out in E. rewrite E. apply N.ltb_lt. lia. }
+    + subst cm. rewrite N.eqb_refl in P', C, V. cbn [o15_run o15_step]. rewrite Ld, N.eqb_refl.
+      set (handed := match h_class (d_res out) with HOk | HNotFound => true | _ => false end).
+      assert (Hh : handed = true -> h_rev (d_res out) = n + 1).
+      { unfold handed. intros Hc. destruct (h_class (d_res out)) eqn:Hcl; try discriminate.
+        - destruct (handed_out_above _ _ op G (or_introl Hcl)) as [E _]. exact E.
+        - destruct (handed_out_above _ _ op G (or_intror Hcl)) as [E _]. exact E. }
+      assert (Ha : (if handed then dmax (os_dump os) <? h_rev (d_res out) else true) = true).
+      { destruct handed eqn:Hd; [|reflexivity]. rewrite (Hh eq_refl). apply N.ltb_lt. lia. }
       assert (Hb : (if negb (existsb (beqb (hop_key op)) (os_touched os)) && guarded_true (os_dump os) op
                     then hclass_eqb (h_class (d_res out)) HOk else true) = true).
       { destruct (existsb (beqb (hop_key op)) (os_touched os)) eqn:Tc; [reflexivity|]. cbn [negb andb].
@@ -292,49 +331,56 @@ Proof.
           apply N.eqb_eq in Gi; subst r0; subst out.
         - rewrite (guarded_update_ok _ _ _ _ _ G Gp Ki). reflexivity.
         - rewrite (guarded_delete_ok _ _ _ _ G Gp Ki). reflexivity. }
-      rewrite Ha, Hb. cbn [andb].
-      refine (IH _ _ _ _ C); [|cbn [os_leader]; rewrite <- Ld; exact V].
-      split; [exact W'|]. cbn [os_leader os_base os_dump os_touched os_fresh]. try rewrite Ld.
-      exists (n + 1). split; [exact P'|]. right. split; [exact Hle|].
-      cbn [m_w]. rewrite bump_data. cbn [w_data]. split; [apply good_step; exact G|]. split; [lia|]. split; [|discriminate].
+      fold handed. rewrite Ha, Hb. cbn [andb].
+      eapply IH; cycle 1; [cbn [os_leader]; rewrite <- Ld; exact V|exact C|].
+      split; [exact W'|]. split; [cbn [os_syncs]; apply K'|].
+      cbn [os_leader os_base os_dump os_touched os_fresh os_last os_sbase]. split; [exact Hin|].
+      exists (n + 1), (n + 1). split; [exact P'|]. right. split; [exact Hle|]. split; [reflexivity|].
+      cbn [m_w]. rewrite bump_data. cbn [w_data]. split; [apply good_step; exact G|]. split; [lia|].
+      split; [destruct handed; [rewrite (Hh eq_refl)|]; lia|]. split; [|discriminate].
       intros k Hk. cbn [existsb] in Hk. apply orb_false_iff in Hk as [Hk1 Hk2].
       apply beqb_neq in Hk1. subst out. rewrite do_op_other by exact Hk1. apply Hun. exact Hk2.
   - (* List(0) by the leader *)
-    destruct V as [Ld V]. rewrite Ld in Jl. destruct Jl as [n [Pn Jd]].
+    destruct V as [Ld V]. rewrite Ld in Jl. destruct Jl as [Hin [n [cm [Pn Jd]]]].
     cbn [m_step] in M. rewrite Pn in M. cbn [committed] in M. injection M as <- <-.
-    destruct Jd as [[Eb Hb]|[Hle [G [Hbn [Hun Hfr]]]]].
-    + cbn [o15_run]. destruct (o15_step os (AList c, OList n (list_at (w_data (m_w s)) n))) as [os'|] eqn:St.
-      * assert (Ne : forall c0 h bc bu t1 t2, AList c <> AElect c0 h bc bu t1 t2) by (intros; discriminate).
-        destruct (step_keeps _ _ _ _ Ne St) as [K1 [K2 K3]].
-        apply (IH s os'); [|rewrite K1; exact V|exact C].
-        split; [exact W|]. rewrite K1, Ld. exists n. split; [exact Pn|]. left. rewrite K2, K3. auto.
+    destruct Jd as [[Eb Hb]|[Hle [Ecm [G [Hbn [Hla [Hun Hfr]]]]]]].
+    + cbn [o15_run]. destruct (o15_step os (AList c, OList cm (list_at (w_data (m_w s)) cm))) as [os'|] eqn:St.
+      * destruct (step_keeps os (AList c) _ os' I St) as [K1 [K2 [K3 [K4 K5]]]].
+        apply (IH s os' el); [|rewrite K1; exact V|exact C].
+        split; [exact W|]. split; [rewrite K5; exact K|]. rewrite K1, Ld. split; [exact Hin|].
+        exists n, cm. split; [exact Pn|]. left. rewrite K2, K3, K4. auto.
       * right. f_equal. apply code_of_bad; assumption.
-    + cbn [o15_run o15_step]. rewrite Ld, N.eqb_refl. cbn [andb].
+    + subst cm. cbn [o15_run o15_step]. rewrite Ld, N.eqb_refl.
+      assert (Hl : (os_last os <=? n) = true) by (apply N.leb_le; exact Hla). rewrite Hl. cbn [andb].
+      assert (Jsame : J e s os el).
+      { split; [exact W|]. split; [exact K|]. rewrite Ld. split; [exact Hin|]. exists n, n. split; [exact Pn|]. right. auto 10. }
       destruct (os_fresh os) eqn:Fr.
-      * destruct (Hfr eq_refl) as [Ed En]. rewrite Ed, En, (list_at_latest _ _ Hle).
-        rewrite (list_eqb_refl kv_eqb kv_eqb_refl).
-        apply (IH s os); [|exact V|exact C].
-        split; [exact W|]. rewrite Ld. exists n. split; [exact Pn|]. right. rewrite Fr. auto.
-      * apply (IH s os); [|exact V|exact C].
-        split; [exact W|]. rewrite Ld. exists n. split; [exact Pn|]. right. rewrite Fr. auto.
+      * destruct (Hfr eq_refl) as [Ed En].
+        assert (Hd : dmax (os_dump os) <= os_base os) by lia.
+        rewrite Ed, En, (list_at_latest _ _ Hd), (list_eqb_refl kv_eqb kv_eqb_refl).
+        apply (IH s os el); [exact Jsame|exact V|exact C].
+      * apply (IH s os el); [exact Jsame|exact V|exact C].
   - (* a standby polls the lock: data and allocators untouched *)
     cbn [m_step] in M. injection M as <- <-. cbn [o15_run o15_step].
-    refine (IH _ os _ _ C); [|exact V].
-    split; [exact W|]. cbn [m_w m_p].
-    destruct (os_leader os) as [l|]; [|exact I]. destruct Jl as [n [Pn Jd]]. exists n. split; [|exact Jd].
+    eapply IH; cycle 1; [exact V|exact C|].
+    split; [exact W|]. split.
+    { intros c0 Hn. cbn [m_p]. unfold upd. destruct (c0 =? c) eqn:E; [apply N.eqb_eq in E; subst c0; cbn [p_lead]|]; apply K; exact Hn. }
+    cbn [m_w m_p].
+    destruct (os_leader os) as [l|]; [|exact I]. destruct Jl as [Hin [n [cm [Pn Jd]]]]. split; [exact Hin|].
+    exists n, cm. split; [|exact Jd].
     unfold upd. destruct (l =? c) eqn:E; [apply N.eqb_eq in E; subst l; exact Pn|exact Pn].
   - (* restart *)
     cbn [m_step] in M. injection M as <- <-. cbn [o15_run o15_step].
-    refine (IH _ os _ _ C); [|exact V].
+    eapply IH; cycle 1; [exact V|exact C|].
     assert (Dd : w_data (restart e (m_w s)) = w_data (m_w s)) by (destruct e; reflexivity).
-    split; [cbn [m_w]; rewrite Dd; exact W|]. cbn [m_w m_p]. rewrite Dd. exact Jl.
+    split; [cbn [m_w]; rewrite Dd; exact W|]. split; [exact K|]. cbn [m_w m_p]. rewrite Dd. exact Jl.
 Qed.
 
 Lemma c15_oracle_sound c : c15_valid c -> c15_check c = true ->
   c15_oracle c = None \/ (c15_oracle c = Some 1 /\ c_engine c = EBadger).
 Proof.
   intros V C. unfold c15_oracle.
-  destruct (o15_sound (c_engine c) (c_script c) mstate0 ost0) as [H|H]; [|exact V|exact C|left; exact H|right].
-  - split; [constructor|exact I].
+  destruct (o15_sound (c_engine c) (c_script c) mstate0 ost0 []) as [H|H]; [|exact V|exact C|left; exact H|right].
+  - split; [constructor|]. split; [reflexivity|exact I].
   - split; [exact H|]. destruct (o15_run_code _ _ _ _ H) as [E|[_ E]]; [discriminate|exact E].
 Qed.
